@@ -5,7 +5,9 @@ import (
 	"encoding/json"
 	"errors"
 	"fmt"
+	"math"
 	"regexp"
+	"sort"
 	"strings"
 	"time"
 
@@ -28,7 +30,7 @@ var pieces = []string{"\n", "\r\n", "\r", "\"", "'", "=", "|", "\\", " integrity
 var words = []string{"query", "failed", "user", "SELECT 1", "client_id", "ok", "x", "connection closed", "0", "-1"}
 
 var fieldNames = []string{"user", "client_id", "integrity", "chain", "msg", "time", "level", "a", "a b", "k=v", "unixTime", "product", "code", "severity", "vendor", "version",
-	"error", "zz", "Integrity", "chain=end", "é", "x|y", "q\"uote", "back\\slash", "timestamp", "fields.msg"}
+	"error", "zz", "Integrity", "chain=end", "é", "x|y", "q\"uote", "back\\slash", "timestamp", "fields.msg", "n<", "bad\xff", "bad\xfe", "", "\u2028", "Chain", "delimiter"}
 
 func advString(rd *core.Rand) string {
 	switch rd.Intn(10) {
@@ -92,7 +94,11 @@ func genHistory(rd *core.Rand, adversarial bool, maxLen int) []entrySpec {
 			if adversarial {
 				e.msg = advString(rd)
 				for k := rd.Intn(4); k > 0; k-- {
-					e.fields[core.Pick(rd, fieldNames)] = advValue(rd)
+					if rd.Chance(45) {
+						e.fields[core.Pick(rd, fieldNames)] = richValue(rd)
+					} else {
+						e.fields[core.Pick(rd, fieldNames)] = advValue(rd)
+					}
 				}
 			} else {
 				e.msg = core.Pick(rd, words)
@@ -156,12 +162,14 @@ func inputClass(format string, specs []entrySpec, items []recItem) string {
 
 func verifyOp(r *core.Run, format string, key, file []byte) string {
 	if format == "json" {
+		// entry level: the model receives the lines as parsed by the real JSONLogParser …
 		ls := fileLines(file)
 		specs := make([]string, len(ls))
 		for i, l := range ls {
 			specs[i] = specOfLine("json", l)
 		}
-		return r.Do(fmt.Sprintf("C20.verifyp %s %s %s", core.Hex(key), core.Hex(file), strings.Join(specs, " ")))
+		r.Do(fmt.Sprintf("C20.verifyp %s %s %s", core.Hex(key), core.Hex(file), strings.Join(specs, " ")))
+		// … and line level: the model decodes the lines itself (AuditLog/Json.lean)
 	}
 	return r.Do(fmt.Sprintf("C20.verify %s %s %s", format, core.Hex(key), core.Hex(file)))
 }
@@ -199,6 +207,7 @@ func run(r *core.Run) {
 	corpus(r, key)
 	calcCases(r)
 	parseCases(r)
+	jsonParseCases(r, key)
 	for n := 0; n < r.N(150, 3000); n++ {
 		format := formats[n%3]
 		adversarial := rd.Chance(70)
@@ -230,6 +239,36 @@ func corpus(r *core.Run, key []byte) {
 		oneHistory(r, format, key, []entrySpec{e("start", nil), e("chain field", logrus.Fields{"chain": "new"}), e("next", nil)}, true)
 		oneHistory(r, format, key, []entrySpec{e(endMsg, nil), e("after a first entry that is an end marker", nil)}, true)
 		oneHistory(r, format, key, []entrySpec{e("a", nil), {kind: 'r'}, e("b", nil), {kind: 'r'}, {kind: 'f'}}, false)
+		// value classes of the JSON path (repo patch 51: numbers above 2^53 are written as logged)
+		oneHistory(r, format, key, []entrySpec{e("start", nil), e("ids", logrus.Fields{"session": uint64(math.MaxUint64), "n": int64(9007199254740993), "amount": 0.1, "f": 1e21}), e("next", nil)}, true)
+		oneHistory(r, format, key, []entrySpec{e("bad\xffutf8 <&> \u2028", logrus.Fields{"b": []byte("x\xff"), "err": errors.New("boom <"), "s": jsonStruct{A: 1 << 60, B: "\xc0\xaf"}, "nil": (*jsonStruct)(nil), "t": t0}), e("next", nil)}, true)
+	}
+	numberWitness(r, key)
+}
+
+// numberWitness: the witnesses of repo patch 51 and of the duplicate-key finding, on a fixed log
+func numberWitness(r *core.Run, key []byte) {
+	t0 := time.Unix(1700000000, 0).UTC()
+	specs := []entrySpec{
+		{kind: 'e', level: logrus.InfoLevel, t: t0, msg: "first", fields: logrus.Fields{}},
+		{kind: 'e', level: logrus.InfoLevel, t: t0, msg: "m", fields: logrus.Fields{"session": uint64(math.MaxUint64), "amount": 0.1}},
+		{kind: 'e', level: logrus.InfoLevel, t: t0, msg: "last", fields: logrus.Fields{}},
+	}
+	file, _ := pipeline("json", key, specs)
+	r.Begin("witness:json-numbers:"+core.Hex(file), true, "stream:boundary", "format:json", "layer:witness")
+	r.Check(bytes.Contains(file, []byte(`"session":18446744073709551615`)), "honest-value-rewritten:json:integer-above-2^53",
+		fmt.Sprintf("uint64(18446744073709551615) is not written as logged: %.300s", file))
+	r.Check(verifyOp(r, "json", key, file) == "ok", "honest-fails:json:other", "honest JSON log with a uint64 field does not verify")
+	lines := fileLines(file)
+	for _, ed := range [][3]string{
+		{"18446744073709551615", "18446744073709551000", "edit-undetected:json:number-literal"},
+		{"18446744073709551615", "1.8446744073709552e19", "edit-undetected:json:number-literal"},
+		{"0.1", "0.10000000000000000999", "edit-undetected:json:number-literal"},
+		{"0.1", "0.10", "edit-undetected:json:number-literal"},
+		{`{"amount"`, `{"msg":"evil","amount"`, "edit-undetected:json:duplicate-key-shadowed"},
+	} {
+		f2 := bytes.Replace(file, []byte(ed[0]), []byte(ed[1]), 1)
+		mustFailBy(r, ed[2], fmt.Sprintf("%s rewritten as %s", ed[0], ed[1]), verifyOp(r, "json", key, f2), protectedAfter("json", lines, 1))
 	}
 }
 
@@ -296,7 +335,7 @@ func oneHistory(r *core.Run, format string, key []byte, specs []entrySpec, adver
 	r.Begin("hist:"+format+":"+core.Hex(file), len(items) > 0, stream, "format:"+format, fmt.Sprintf("entries:%d", len(items)))
 	class := inputClass(format, specs, items)
 	// layer 2: the hooks applied to the recorded formatter outputs reproduce the pipeline's bytes
-	if format != "json" {
+	{
 		line := fmt.Sprintf("C20.produce %s %s %s", format, core.Hex(key), itemsArg(items))
 		out := r.Do(line)
 		if out != core.Hex(file) {
@@ -304,7 +343,7 @@ func oneHistory(r *core.Run, format string, key []byte, specs []entrySpec, adver
 		}
 	}
 	lines := fileLines(file)
-	if format != "json" {
+	{
 		for _, l := range lines {
 			r.Do(fmt.Sprintf("C20.parse %s %s", format, core.Hex(l)))
 		}
@@ -339,7 +378,7 @@ func oneHistory(r *core.Run, format string, key []byte, specs []entrySpec, adver
 		}
 		mut := make([][]byte, len(lines))
 		copy(mut, lines)
-		switch rd.Intn(6) {
+		switch rd.Intn(8) {
 		case 5: // JSON: change the TYPE of a value while keeping its characters ("3" <-> 3, "true" <-> true): the field
 			// means something else to every JSON reader, so it is a change of the entry whatever the parser reports
 			if format != "json" {
@@ -430,6 +469,66 @@ func oneHistory(r *core.Run, format string, key []byte, specs []entrySpec, adver
 				}
 			}
 			mustFailBy(r, cls, fmt.Sprintf("line %d duplicated at %d", i, p), verifyOp(r, format, key, joinLines(mut)), lim)
+		case 6: // JSON: another number literal for the same (or nearly the same) number – every exact reader sees another value
+			if format != "json" {
+				continue
+			}
+			l := string(lines[i])
+			ms := jsonNumber.FindAllStringSubmatchIndex(l, -1)
+			if len(ms) == 0 {
+				continue
+			}
+			c := ms[rd.Intn(len(ms))]
+			tok := l[c[2]:c[3]]
+			var ntok string
+			switch rd.Intn(4) {
+			case 0:
+				ntok = tok + "0"
+				if !strings.ContainsAny(tok, ".e") {
+					ntok = tok + ".0"
+				}
+			case 1:
+				if strings.ContainsAny(tok, ".e") || len(tok) < 17 {
+					continue
+				}
+				d := tok[len(tok)-1]
+				ntok = tok[:len(tok)-1] + string('0'+(d-'0'+1)%10) // beyond float64 precision
+			case 2:
+				if strings.ContainsAny(tok, "e") {
+					continue
+				}
+				ntok = tok + "e0"
+			case 3:
+				if !strings.Contains(tok, ".") || strings.Contains(tok, "e") {
+					continue
+				}
+				ntok = tok + "0000000000000000001"
+			}
+			mut[i] = []byte(l[:c[2]] + ntok + l[c[3]:])
+			mustFailBy(r, "edit-undetected:json:number-literal", fmt.Sprintf("line %d: number %s rewritten as %s", i, tok, ntok), verifyOp(r, format, key, joinLines(mut)), protectedAfter(format, mut, i))
+		case 7: // JSON: a second member with the key of an existing one, placed BEFORE it: encoding/json lets the last
+			// one win, first-wins and streaming readers see the injected value
+			if format != "json" {
+				continue
+			}
+			l := string(lines[i])
+			var probe map[string]interface{}
+			if json.Unmarshal([]byte(l), &probe) != nil {
+				continue
+			}
+			var ks []string
+			for k := range probe {
+				if k != "integrity" {
+					ks = append(ks, k)
+				}
+			}
+			if len(ks) == 0 {
+				continue
+			}
+			sort.Strings(ks)
+			kb, _ := json.Marshal(core.Pick(rd, ks))
+			mut[i] = []byte("{" + string(kb) + ":\"injected\"," + l[1:])
+			mustFailBy(r, "edit-undetected:json:duplicate-key-shadowed", fmt.Sprintf("line %d: member %s:\"injected\" put in front of the genuine one", i, kb), verifyOp(r, format, key, joinLines(mut)), protectedAfter(format, mut, i))
 		case 4: // replace the authenticated part by that of another entry, keeping the tag (splice)
 			j := rd.Intn(len(lines))
 			if format == "json" || i == j {
